@@ -25,7 +25,9 @@ BATCH = {"quick": 300, "thorough": 2000}
 RULE = (
     "each case is a generated script program (1-5 entities, handlers returning none/one/list/generator, "
     "0-24 initial events drawn from <=4 distinct timestamps, daemon/cancelled/past/crashed mixes, end_time "
-    "none/before/on/between/after) run on the real engine in one of three loop modes and on the reference "
+    "none/before/on/between/after, stated as end_time= or duration=, start_time at or after the epoch; events built "
+    "before the run and handed over by a handler during it; events built and scheduled from outside while the run is "
+    "paused) run on the real engine in one of three loop modes and on the reference "
     "interpreter; non-trivial = >=3 deliveries and at least one same-timestamp tie group among live events; "
     "distinct = distinct engine delivery-log digests"
 )
@@ -39,17 +41,20 @@ ASSUMPTIONS = [
     "Simulation object is constructed (any split is generated)",
     "events later than end_time are outside the statement (the engine delivers the first one past end_time; not judged here)",
     "cancelled non-daemon events count as pending until lazily removed (weaker reading of auto-termination)",
+    "whether a requested pause takes effect before the run ends is not judged here (C04 does); injections are replayed on "
+    "the reference at the delivery counts at which the engine actually paused",
 ]
 EXPECTED_PROBES = ["probe.tie_prerun_vs_inrun", "probe.cancelled_skipped", "probe.past_discarded",
                    "probe.daemon_left_pending", "probe.generator_resumed", "probe.crashed_target_skipped",
                    "probe.events_created_before_simulation", "probe.cancelled_after_schedule",
                    "probe.event_object_retimed_and_returned", "probe.nonzero_start_with_duration",
-                   "probe.event_before_start_time_discarded"]
+                   "probe.event_before_start_time_discarded", "probe.prepared_event_tied_with_inrun_event",
+                   "probe.injected_while_paused_tied_with_inrun_event"]
 SHRINK_SKIP = ("n_entities", "n_kinds")
 
 
 def gen(rng, tier):
-    prog = gen_program(rng)
+    prog = gen_program(rng, allow_prepared=True)
     modes = ["control", "plain"] + (["fast", "fast"] if prog["end"] is not None else [])
     prog["mode"] = rng.choice(modes)
     prog["perturb"] = rng.randrange(0, 50) if rng.random() < 0.3 else 0
@@ -63,6 +68,15 @@ def gen(rng, tier):
         if prog["end"] is not None and prog["end"] < prog["start"]:
             prog["end"] = prog["start"] + prog["end"]
     prog["use_duration"] = prog["end"] is not None and rng.random() < 0.4
+    # events built and scheduled from outside while the run is paused (control mode): they are younger than
+    # everything created so far and older than everything created after the run continues
+    if prog["mode"] == "control" and rng.random() < 0.3:
+        from simkit.scriptprog import DT_CHOICES_NS
+        prog["inject"] = [{"after": rng.choice([0, 1, 1, 2, 3, 5, 8, 13]),
+                           "events": [{"dt": rng.choice(DT_CHOICES_NS), "to": rng.randrange(prog["n_entities"]),
+                                       "k": rng.randrange(prog["n_kinds"]), "daemon": rng.random() < 0.1}
+                                      for _ in range(rng.randint(1, 3))]}
+                          for _ in range(rng.randint(1, 3))]
     return prog
 
 
@@ -71,8 +85,16 @@ def _validate(sc):
     if n < 1 or k < 1:
         raise InvalidScenario("no entities")
 
+    n_prep = len(sc.get("prepared", []))
+
     def ok_emit(e):
+        if "prep" in e:
+            return 0 <= e["prep"] < n_prep
         return 0 <= e["to"] < n and 0 <= e["k"] < k
+
+    for pe in sc.get("prepared", []):
+        if not (0 <= pe["to"] < n and 0 <= pe["k"] < k) or pe["t"] < 0:
+            raise InvalidScenario("prepared out of range")
 
     for key, h in sc["handlers"].items():
         for e in h.get("emits", []) + h.get("sched", []) + [x for s in h.get("steps", []) for x in s.get("emits", [])]:
@@ -87,6 +109,11 @@ def _validate(sc):
     for i in sc["initial"]:
         if not ok_emit(i) or i["t"] < 0:
             raise InvalidScenario("initial out of range")
+    if sc.get("inject") and sc.get("mode") != "control":
+        raise InvalidScenario("injection needs the control surface")
+    for inj in sc.get("inject", []):
+        if inj["after"] < 0 or any(not ok_emit(e) or "prep" in e or e["dt"] < 0 for e in inj["events"]):
+            raise InvalidScenario("bad injection")
     st = sc.get("start", 0)
     if st < 0 or (sc.get("end") is not None and sc["end"] < st):
         raise InvalidScenario("run window ends before it starts")
@@ -117,6 +144,7 @@ def run_engine(sc):
     sim = Simulation(entities=pr.entities, **kw)
     pr.sim = sim
     pr.create_initial(n_before, None)       # built afterwards (the usual way)
+    pr.create_prepared()                    # built now, handed to the engine by a handler during the run
     evs = pr.initial_in_schedule_order()
     if evs:
         if len(evs) % 2:
@@ -125,6 +153,40 @@ def run_engine(sc):
             for e in evs:
                 sim.schedule(e)
     pr.apply_late_cancels()
+    pr.injected = {}
+    if sc.get("mode") == "control" and sc.get("inject"):
+        ctl = sim.control
+        plan: dict[int, list] = {}
+        for inj in sc["inject"]:
+            plan.setdefault(inj["after"], []).extend(inj["events"])
+        n = [0]
+
+        def hook(ev):
+            n[0] += 1
+            if n[0] in plan:
+                ctl.pause()
+
+        ctl.on_event(hook)
+        if 0 in plan:
+            ctl.pause()
+        summary = sim.run()
+        guard = 0
+        while ctl.is_paused:
+            guard += 1
+            if guard > 100:
+                raise RuntimeError("harness: paused more often than pauses were requested")
+            emits = plan.pop(n[0], None)
+            if emits:
+                now = pr.entities[0].now.nanoseconds
+                evs = [pr.new_event(now + e["dt"], e["to"], e["k"], e.get("daemon", False)) for e in emits]
+                pr.injected[n[0]] = emits
+                if len(evs) % 2:
+                    sim.schedule(evs)
+                else:
+                    for e in evs:
+                        sim.schedule(e)
+            summary = ctl.resume()
+        return pr, summary, sim
     if sc.get("mode") == "control":
         sim.control.on_event(lambda e: None)
     summary = sim.run()
@@ -188,8 +250,6 @@ def compare(sc, pr, summary, ref) -> tuple[str | None, str]:
 
 def run(sc):
     _validate(sc)
-    ref = RefEngine(sc)
-    ref.run()
     try:
         pr, summary, sim = run_engine(sc)
     except Exception as exc:  # the harness only uses the public API with valid arguments
@@ -200,6 +260,8 @@ def run(sc):
         if repo.REPO in inner.filename:
             return result(sig=f"exception/{type(exc).__name__}/{inner.name}", msg=repr(exc))
         raise
+    ref = RefEngine(sc, injections=pr.injected)
+    ref.run()
     sig, msg = compare(sc, pr, summary, ref)
     h = hashlib.blake2b(repr(pr.log).encode(), digest_size=12).hexdigest()
     has_gen = any(s > 0 for (_, s, _, _) in pr.log)
@@ -213,6 +275,8 @@ def run(sc):
         "probe.events_created_before_simulation": int(0 < (len(sc["initial"]) if sc.get("create_before_sim") is True else int(sc.get("create_before_sim") or 0)) < len(sc["initial"])),
         "probe.cancelled_after_schedule": int(any(i.get("cancel") == "late" for i in sc["initial"])),
         "probe.event_object_retimed_and_returned": int(any(x[1] < -1 for x in ref.log)),
+        "probe.injected_while_paused_tied_with_inrun_event": int(_inject_tie(ref)),
+        "probe.prepared_event_tied_with_inrun_event": int(_prep_tie(ref)),
         "probe.nonzero_start_with_duration": int(bool(sc.get("start")) and bool(sc.get("use_duration"))),
         "probe.event_before_start_time_discarded": int(bool(sc.get("start")) and ref.discarded_past > 0),
         f"mode.{sc.get('mode')}": 1,
@@ -226,6 +290,25 @@ def run(sc):
         counters=counters, sim_s=ref.now / 1e9 if ref.now < 10**13 else 0.0, deliveries=len(pr.log),
         klass=sc.get("mode", "?"), state=state,
     )
+
+
+def _inject_tie(ref) -> bool:
+    by_t = {}
+    for uid, step, t in ref.log:
+        by_t.setdefault(t, set()).add("cont" if step > 0 else ref.registry[uid]["phase"])
+    return any("paused" in s and ({"inrun", "cont"} & s) for s in by_t.values())
+
+
+def _prep_tie(ref) -> bool:
+    """Was a prepared (built pre-run, handed over in-run) event delivered at the same instant as an in-run event?"""
+    prep = {r["uid"] for r in getattr(ref, "prepared", [])}
+    if not prep:
+        return False
+    by_t = {}
+    for uid, step, t in ref.log:
+        kind = "prep" if (uid in prep and step < 0) else ("cont" if step > 0 else ref.registry[uid]["phase"])
+        by_t.setdefault(t, set()).add(kind)
+    return any("prep" in s and ({"inrun", "cont"} & s) for s in by_t.values())
 
 
 def _tie_pre_in(ref) -> bool:
